@@ -185,13 +185,21 @@ fn audit_ptr(task: usize, w: u32, cp: usize) {
     }
 }
 
-/// Check every registration of every foreign task against the allocator ledger.
+/// Check every registration of every foreign task against the allocator ledger, and that a
+/// waitable registered with a live task is a member of that task's waitable set (otherwise its
+/// completion can never be delivered to the registered callback).
 pub fn audit_all() {
     HTASKS.with(|t| {
         for p in t.borrow().iter() {
             let st = unsafe { &**p };
             for (w, (_, cp)) in st.regs.iter() {
                 audit_ptr(st.id, *w, *cp);
+                if st.alive {
+                    let set = with(|h| h.in_set(*w));
+                    if set != Some(st.set) {
+                        violation("C18", "foreign-task:registered-but-not-in-its-set", format!("waitable {w} is registered with foreign task {} (set {}) but is joined to {set:?}: its completion cannot be delivered", st.id, st.set));
+                    }
+                }
             }
         }
     });
